@@ -1,6 +1,6 @@
 (* Pf_Hist.v — an invariant of fault-free, API-call-atomic histories of any number of threads, and from it the
    whole-history theorems of C03 and C17: the monitors hold of the model for EVERY such history. *)
-From HL Require Import Base Model Shape Algo Api OpsLemmas Lemmas ShapeLemmas ApiLemmas QuietLemmas NoRel Pf_Calls Check Monitors Pf_C06 Pf_C13 Pf_Acct.
+From HL Require Import Base Model Shape Algo Api OpsLemmas Lemmas ShapeLemmas ApiLemmas QuietLemmas NoRel Pf_Calls Check Monitors Pf_C06 Pf_C13 SeeLemmas Pf_Acct.
 
 (* ---------------------------------------------------------------- who holds what, per raw state *)
 Definition wf_rawst (s : rawst) : Prop := writer s <> None -> readers s = [].
@@ -319,10 +319,45 @@ Definition scoped_shape (sc : scen) (t : tid) (c : nat) (m : mode) (body : list 
     (forall l, hc t (w_raw w1 l) + releases_of l evA = hc t (w_raw w l) + acquires_of l evA) /\
     (forall x, w_raw w1 x = acq_all t m (kleaves (shape_of sc c)) (w_raw w) x) /\
     run nopw t (closure m (gitems (shape_of sc c)) body) w1 = ((if existsb is_cpanic body then OPanic else ODone VUnit), w2) /\
-    frame (emit w1 (EMark t 1)) w2 /\ w_trace w' = evR ++ w_trace w2 /\ Forall tail_ev evR.
+    frame (emit w1 (EMark t 1)) w2 /\ w_trace w' = evR ++ w_trace w2 /\ Forall tail_ev evR /\
+    can_all m (kleaves (shape_of sc c)) (w_raw w) = true.
 
 Definition is_scoped (o : apiop) : option (nat * mode * list csop) :=
   match o with AAcquire c m (FScoped _ b | FScopedTry _ b) => Some (c, m, b) | _ => None end.
+
+(* what a call does to the Poisonable flags, what it shows of them, and how they decide its result *)
+Definition psn_after (sc : scen) (lc : tlocal) (o : apiop) (rc : rcode) (f : pid -> bool) : pid -> bool :=
+  match o with
+  | APanic => match guard lc with Some g => set_psn_all f (gpoisons (g_items g)) | None => f end
+  | AAcquire c _ (FScoped _ _ | FScopedTry _ _) =>
+      match rc with
+      | RPanicked => match root_poison (shape_of sc c) with Some p => upd f p true | None => f end
+      | _ => f
+      end
+  | AClearPoison c => match root_poison (shape_of sc c) with Some p => upd f p false | None => f end
+  | _ => f
+  end.
+
+Definition poison_facts (sc : scen) (lc : tlocal) (o : apiop) (w : world) (out : outcome) (w' : world) : Prop :=
+  let rc := snd (api_fin (sc_env sc) lc o out) in
+  (stop_code rc = false -> forall x, w_psn w' x = psn_after sc lc o rc (w_psn w) x) /\
+  match o with
+  | AAcquire c m f =>
+      (rc = ROk \/ rc = RPoisoned \/ rc = RPanicked ->
+       exists evs, w_trace w' = evs ++ w_trace w /\
+                   see_bools (rev evs) = map (w_psn w) (gpoisons (gitems (shape_of sc c)))) /\
+      (rc = RWouldBlock \/ rc = RBlockedC \/
+       rc = match f with
+            | FGuard | FTry => match root_poison (shape_of sc c) with
+                               | Some p => if w_psn w p then RPoisoned else ROk
+                               | None => ROk
+                               end
+            | FScoped _ b | FScopedTry _ b => if existsb is_cpanic b then RPanicked else ROk
+            end)
+  | AIsPoisoned c => match root_poison (shape_of sc c) with Some p => rc = RB (w_psn w p) | None => True end
+  | AClearPoison _ => rc = ROk
+  | _ => True
+  end.
 
 Record call_out (sc : scen) (t : tid) (lc : tlocal) (o : apiop) (w : world) (out : outcome) (w' : world) : Prop := {
   cq_stop : stop_code (snd (api_fin (sc_env sc) lc o out)) = true -> is_acquire o = true;
@@ -340,6 +375,7 @@ Record call_out (sc : scen) (t : tid) (lc : tlocal) (o : apiop) (w : world) (out
               end;
   (* whatever the outcome (a call cut because it has to wait included): no release by a non-holder *)
   cq_nobad : exists evs, w_trace w' = evs ++ w_trace w /\ Forall nobad_ev evs;
+  cq_poison : poison_facts sc lc o w out w';
   (* a closure that panics makes the call panic *)
   cq_nook : forall c m lent body,
               (o = AAcquire c m (FScoped lent body) \/ o = AAcquire c m (FScopedTry lent body)) ->
@@ -381,6 +417,37 @@ Proof.
   intros R. unfold scoped_rest. destruct (root_poison s); unfold with_key, pthen; cbn [run]; rewrite R; reflexivity.
 Qed.
 
+
+(* the poison facts of a guard acquisition that went through: acquisition [w -> w1] (no wrapper observation, flags
+   untouched), then a look at every wrapper [w1 -> w2], then the result code from the root wrapper's flag *)
+Lemma guard_poison_facts sc lc c m f s w w1 w2 n (evA : list ev) :
+  (f = FGuard \/ f = FTry) ->
+  shape_of sc c = s ->
+  w_trace w1 = evA ++ w_trace w -> Forall nosee_ev evA -> (forall x, w_psn w1 x = w_psn w x) ->
+  w_trace w2 = rev (map (fun p => ESee 0 (w_psn w1 p)) (gpoisons (gitems s))) ++ w_trace w1 \/
+  (exists t, w_trace w2 = rev (map (fun p => ESee t (w_psn w1 p)) (gpoisons (gitems s))) ++ w_trace w1) ->
+  (forall x, w_psn w2 x = w_psn w1 x) ->
+  n = match root_poison s with Some p => if w_psn w2 p then 2 else 0 | None => 0 end ->
+  poison_facts sc lc (AAcquire c m f) w (ODone (VNat n)) w2.
+Proof.
+  intros Hf Hs TA FA PA TS PS Hn.
+  assert (TS' : exists t, w_trace w2 = rev (map (fun p => ESee t (w_psn w1 p)) (gpoisons (gitems s))) ++ w_trace w1)
+    by (destruct TS as [X|X]; [now exists 0|exact X]).
+  destruct TS' as [t T2].
+  assert (Erc : snd (api_fin (sc_env sc) lc (AAcquire c m f) (ODone (VNat n))) =
+                match root_poison s with Some p => if w_psn w p then RPoisoned else ROk | None => ROk end).
+  { rewrite Hn. destruct (root_poison s) as [p|]; [|destruct Hf as [-> | ->]; reflexivity].
+    rewrite PS, PA. destruct (w_psn w p); destruct Hf as [-> | ->]; reflexivity. }
+  unfold poison_facts. cbn zeta. rewrite Erc, Hs. split; [|split].
+  - intros _ x. destruct Hf as [-> | ->]; cbn [psn_after]; now rewrite PS, PA.
+  - intros _. exists (rev (map (fun p => ESee t (w_psn w1 p)) (gpoisons (gitems s))) ++ evA). split.
+    + rewrite T2, TA. now rewrite <- app_assoc.
+    + rewrite rev_app_distr, see_bools_app, see_bools_rev_map.
+      rewrite (see_bools_nosee (rev evA)) by (now apply Forall_rev). cbn [app].
+      apply map_ext. exact PA.
+  - right. right. destruct Hf as [-> | ->]; reflexivity.
+Qed.
+
 Section CallAcq.
   Variables (sc : scen) (t : tid) (lc : tlocal) (c : nat) (m : mode) (s : shape) (w : world).
   Hypothesis Q : quiet w.
@@ -398,8 +465,13 @@ Section CallAcq.
     intros R. pose proof (raw_lock_all_or_wait t m (e_am e) s Ha ND (e_fuel e) w Q Hf) as L.
     destruct (can_all m (kleaves s) (w_raw w)) eqn:Can.
     - destruct L as [w1 [R1 E1]].
-      destruct (run_see_all t (gpoisons (gitems s)) w1) as [w2 [R2 E2]].
-      destruct (run_poison_result_any t s w2) as [n [R3 Hn]].
+      destruct (run_see_all_exact t (gpoisons (gitems s)) w1) as [w2 [R2 [T2 [P2 F2]]]].
+      set (n := match root_poison s with Some p => if w_psn w2 p then 2 else 0 | None => 0 end).
+      pose proof (run_poison_result_exact t s w2) as R3. fold n in R3.
+      assert (Hn : n = 0 \/ n = 2) by (unfold n; destruct (root_poison s) as [p|]; [destruct (w_psn w2 p)|]; auto).
+      assert (E2 : eff w1 w2 (w_raw w1)).
+      { destruct F2. constructor; auto. destruct fr_tr as [evs [T U]]. exists evs. split; [exact T|].
+        eapply Forall_impl; [|exact U]. intros e0 He. destruct e0; simpl in *; tauto. }
       assert (Rc : run nopw t (with_key true false (raw_lock (e_fuel e) m a ;; see_all (gpoisons (gitems s)) ;; poison_result s)) w
                    = (ODone (VNat n), w2)).
       { apply (run_with_key_done nopw t true false _ w (VNat n) w2).
@@ -408,6 +480,14 @@ Section CallAcq.
       rewrite Rc in R. inversion R; subst out w'. clear R.
       assert (Fin : snd (api_fin e lc (AAcquire c m FGuard) (ODone (VNat n))) = (if Nat.eqb n 2 then RPoisoned else ROk)).
       { destruct Hn as [-> | ->]; reflexivity. }
+      assert (PF : poison_facts sc lc (AAcquire c m FGuard) w (ODone (VNat n)) w2).
+      { destruct (eff_tr _ _ _ E1) as [evA [TA _]].
+        destruct (run_nosee nopw t _ _ _ _ (alg_nosee _ (raw_lock_ops (e_fuel e) m a)) R1) as [evA' [TA' FA']].
+        assert (evA' = evA) by (rewrite TA in TA'; now apply app_inv_tail in TA'). subst evA'.
+        apply (guard_poison_facts sc lc c m FGuard s w w1 w2 n evA); auto.
+        - apply (shape_of_coll _ _ _ Hc).
+        - apply (eff_psn _ _ _ E1).
+        - right. now exists t. }
       constructor; fold e; rewrite ?Fin.
       + destruct (Nat.eqb n 2); discriminate.
       + intros _. eapply eff_quiet; [exact E2|]. eapply eff_quiet; [exact E1|exact Q].
@@ -417,6 +497,7 @@ Section CallAcq.
       + intros _. apply (eff_tr _ _ _ (eff_trans _ _ _ _ _ E1 E2)).
       + intros c' m' b' X; discriminate X.
       + apply clean_to_nobad, (eff_tr _ _ _ (eff_trans _ _ _ _ _ E1 E2)).
+      + exact PF.
       + intros c' m' l' b' [X|X] _; discriminate X.
     - destruct L as [w1 R1].
       assert (Rc : run nopw t (with_key true false (raw_lock (e_fuel e) m a ;; see_all (gpoisons (gitems s)) ;; poison_result s)) w
@@ -427,9 +508,42 @@ Section CallAcq.
       + intros c' m' f' _ H. discriminate H.
       + intros c' m' b' X; discriminate X.
       + fold a in R1. apply (raw_lock_nobad t m (e_am e) s (e_fuel e) w _ _ Ha ND Q Hf R1).
+      + unfold poison_facts. cbn [api_fin snd stop_code]. split; [intros X; discriminate X|].
+        split; [intros [X|[X|X]]; discriminate X|]. right. now left.
       + intros c' m' l' b' [X|X] _; discriminate X.
   Qed.
 End CallAcq.
+
+
+(* the poison facts of a scoped call that ran its closure *)
+Lemma scoped_poison_facts sc lc c m f lent body s t w wa wb w2 (evA evR : list ev) :
+  (f = FScoped lent body \/ f = FScopedTry lent body) ->
+  shape_of sc c = s ->
+  w_trace wa = evA ++ w_trace w -> Forall nosee_ev evA -> (forall x, w_psn wa x = w_psn w x) ->
+  run nopw t (closure m (gitems s) body) wa = ((if existsb is_cpanic body then OPanic else ODone VUnit), wb) ->
+  w_trace w2 = evR ++ w_trace wb -> Forall tail_ev evR ->
+  (forall x, w_psn w2 x = match root_poison s with
+                          | Some p => if existsb is_cpanic body then upd (w_psn w) p true x else w_psn w x
+                          | None => w_psn w x
+                          end) ->
+  poison_facts sc lc (AAcquire c m f) w (if existsb is_cpanic body then OPanic else ODone (VNat 0)) w2.
+Proof.
+  intros Hf Hs TA FA PA Rcl TR FR P2.
+  assert (Erc : snd (api_fin (sc_env sc) lc (AAcquire c m f) (if existsb is_cpanic body then OPanic else ODone (VNat 0))) =
+                if existsb is_cpanic body then RPanicked else ROk).
+  { destruct (existsb is_cpanic body); destruct Hf as [-> | ->]; reflexivity. }
+  unfold poison_facts. cbn zeta. rewrite Erc, Hs. split; [|split].
+  - intros _ x. rewrite P2.
+    destruct Hf as [-> | ->]; cbn [psn_after]; rewrite Hs; destruct (existsb is_cpanic body); destruct (root_poison s); reflexivity.
+  - intros _. destruct (run_closure_see t m (gitems s) body wa _ wb Rcl) as [U [TU SU]].
+    exists (evR ++ U ++ EMark t 1 :: evA). split.
+    + rewrite TR, TU, TA. rewrite <- !app_assoc. reflexivity.
+    + rewrite !rev_app_distr. cbn [rev]. rewrite !see_bools_app. cbn [see_bools app].
+      rewrite (see_bools_nosee (rev evA)) by (now apply Forall_rev).
+      rewrite (see_bools_nosee (rev evR)) by (apply Forall_rev; eapply Forall_impl; [|exact FR]; apply tail_nosee).
+      rewrite SU, app_nil_r. cbn [app]. apply map_ext. exact PA.
+  - right. right. destruct Hf as [-> | ->]; reflexivity.
+Qed.
 
 Section CallAcq2.
   Variables (sc : scen) (t : tid) (lc : tlocal) (c : nat) (m : mode) (s : shape) (w : world).
@@ -449,8 +563,13 @@ Section CallAcq2.
   Proof.
     intros R. destruct (run_raw_try t m (e_am e) s w Q Ha ND) as [w1 [R1 E1]]. fold a in R1.
     destruct (can_all m (kleaves s) (w_raw w)) eqn:Can.
-    - destruct (run_see_all t (gpoisons (gitems s)) w1) as [w2 [R2 E2]].
-      destruct (run_poison_result_any t s w2) as [n [R3 Hn]].
+    - destruct (run_see_all_exact t (gpoisons (gitems s)) w1) as [w2 [R2 [T2 [P2 F2]]]].
+      set (n := match root_poison s with Some p => if w_psn w2 p then 2 else 0 | None => 0 end).
+      pose proof (run_poison_result_exact t s w2) as R3. fold n in R3.
+      assert (Hn : n = 0 \/ n = 2) by (unfold n; destruct (root_poison s) as [p|]; [destruct (w_psn w2 p)|]; auto).
+      assert (E2 : eff w1 w2 (w_raw w1)).
+      { destruct F2. constructor; auto. destruct fr_tr as [evs [T U]]. exists evs. split; [exact T|].
+        eapply Forall_impl; [|exact U]. intros e0 He. destruct e0; simpl in *; tauto. }
       assert (Rc : run nopw t (with_key true false
                   (Bind (raw_try m a)
                         (fun v => if vtrue v then see_all (gpoisons (gitems s)) ;; poison_result s else Ret (VNat 1)))) w
@@ -461,6 +580,14 @@ Section CallAcq2.
       rewrite Rc in R. inversion R; subst out w'. clear R.
       assert (Fin : snd (api_fin e lc (AAcquire c m FTry) (ODone (VNat n))) = (if Nat.eqb n 2 then RPoisoned else ROk)).
       { destruct Hn as [-> | ->]; reflexivity. }
+      assert (PF : poison_facts sc lc (AAcquire c m FTry) w (ODone (VNat n)) w2).
+      { destruct (eff_tr _ _ _ E1) as [evA [TA _]].
+        destruct (run_nosee nopw t _ _ _ _ (alg_nosee _ (raw_try_ops m a)) R1) as [evA' [TA' FA']].
+        assert (evA' = evA) by (rewrite TA in TA'; now apply app_inv_tail in TA'). subst evA'.
+        apply (guard_poison_facts sc lc c m FTry s w w1 w2 n evA); auto.
+        - apply (shape_of_coll _ _ _ Hc).
+        - apply (eff_psn _ _ _ E1).
+        - right. now exists t. }
       constructor; fold e; rewrite ?Fin.
       + destruct (Nat.eqb n 2); discriminate.
       + intros _. eapply eff_quiet; [exact E2|]. eapply eff_quiet; [exact E1|exact Q].
@@ -470,6 +597,7 @@ Section CallAcq2.
       + intros _. apply (eff_tr _ _ _ (eff_trans _ _ _ _ _ E1 E2)).
       + intros c' m' b' X; discriminate X.
       + apply clean_to_nobad, (eff_tr _ _ _ (eff_trans _ _ _ _ _ E1 E2)).
+      + exact PF.
       + intros c' m' l' b' [X|X] _; discriminate X.
     - assert (Rc : run nopw t (with_key true false
                   (Bind (raw_try m a)
@@ -486,6 +614,8 @@ Section CallAcq2.
       + intros _. apply (eff_tr _ _ _ E1).
       + intros c' m' b' X; discriminate X.
       + apply clean_to_nobad, (eff_tr _ _ _ E1).
+      + unfold poison_facts. cbn [api_fin snd stop_code psn_after]. split; [intros _ x; apply (eff_psn _ _ _ E1)|].
+        split; [intros [X|[X|X]]; discriminate X|]. now left.
       + intros c' m' l' b' [X|X] _; discriminate X.
   Qed.
 
@@ -518,9 +648,16 @@ Section CallAcq2.
           exists wa, wb, evA, evR. split; [exact TA|]. split; [exact FA'|]. split; [exact FA|]. split; [exact FA''|]. split; [exact FN|]. split; [exact HA|].
           split; [intros x; rewrite (eff_raw _ _ _ Ea); now rewrite (shape_of_coll _ _ _ Hc)|].
           split; [rewrite (shape_of_coll _ _ _ Hc); exact Rcl|].
-          split; [exact Fb|]. split; [exact Tb|exact Ftl]. }
+          split; [exact Fb|]. split; [exact Tb|]. split; [exact Ftl|]. rewrite (shape_of_coll _ _ _ Hc). exact Can. }
         destruct (existsb is_cpanic body); exact Sh.
       + apply clean_to_nobad, (ep_tr _ _ _ _ E2).
+      + destruct (eff_tr _ _ _ Ea) as [evA [TA _]].
+        destruct (run_nosee nopw t _ _ _ _ (alg_nosee _ (raw_lock_ops (e_fuel e) m (alg_of (e_am e) s))) Ra) as [evA' [TA' FA']].
+        assert (evA' = evA) by (rewrite TA in TA'; now apply app_inv_tail in TA'). subst evA'.
+        apply (scoped_poison_facts sc lc c m (FScoped lent body) lent body s t w wa wb w2 evA evR); auto.
+        * apply (shape_of_coll _ _ _ Hc).
+        * apply (eff_psn _ _ _ Ea).
+        * intros x. rewrite (ep_psn _ _ _ _ E2). destruct (root_poison s); [destruct (existsb is_cpanic body)|]; reflexivity.
       + intros c' m' l' b' [X|X] Hp; inversion X; subst. rewrite Hp. discriminate.
     - pose proof (raw_lock_all_or_wait t m (e_am e) s Ha ND (e_fuel e) w Q Hf) as L. rewrite Can in L.
       destruct L as [w1 R1]. fold a in R1.
@@ -529,6 +666,8 @@ Section CallAcq2.
       + intros c' m' f' _ H. discriminate H.
       + intros c' m' b' _. apply (run_nomark nopw t _ _ _ _ (alg_nomark _ (raw_lock_ops (e_fuel e) m a)) R1).
       + apply (raw_lock_nobad t m (e_am e) s (e_fuel e) w _ _ Ha ND Q Hf R1).
+      + unfold poison_facts. cbn [api_fin snd stop_code]. split; [intros X; discriminate X|].
+        split; [intros [X|[X|X]]; discriminate X|]. right. now left.
       + intros c' m' l' b' _ _. discriminate.
   Qed.
 
@@ -568,9 +707,18 @@ Section CallAcq2.
           exists w1, wb, evA, evR. split; [exact TA|]. split; [exact FA'|]. split; [exact FA|]. split; [exact FA''|]. split; [exact FN|]. split; [exact HA|].
           split; [intros x; rewrite (eff_raw _ _ _ E1); now rewrite (shape_of_coll _ _ _ Hc)|].
           split; [rewrite (shape_of_coll _ _ _ Hc); exact Rcl|].
-          split; [exact Fb|]. split; [exact Tb|exact Ftl]. }
+          split; [exact Fb|]. split; [exact Tb|]. split; [exact Ftl|]. rewrite (shape_of_coll _ _ _ Hc). exact Can. }
         destruct (existsb is_cpanic body); exact Sh.
       + apply clean_to_nobad, (clean_trans w w1 w2); [apply (eff_tr _ _ _ E1)|apply (ep_tr _ _ _ _ E2)].
+      + destruct (eff_tr _ _ _ E1) as [evA [TA _]].
+        destruct (run_nosee nopw t _ _ _ _ (alg_nosee _ (raw_try_ops m (alg_of (e_am e) s))) R1) as [evA' [TA' FA']].
+        assert (evA' = evA) by (rewrite TA in TA'; now apply app_inv_tail in TA'). subst evA'.
+        apply (scoped_poison_facts sc lc c m (FScopedTry lent body) lent body s t w w1 wb w2 evA evR); auto.
+        * apply (shape_of_coll _ _ _ Hc).
+        * apply (eff_psn _ _ _ E1).
+        * intros x. rewrite (ep_psn _ _ _ _ E2).
+          destruct (root_poison s) as [p|]; [destruct (existsb is_cpanic body)|]; try apply (eff_psn _ _ _ E1).
+          unfold upd. destruct (Nat.eqb x p); [reflexivity|apply (eff_psn _ _ _ E1)].
       + intros c' m' l' b' [X|X] Hp; inversion X; subst. rewrite Hp. discriminate.
     - cbn [run] in R. inversion R; subst out w'. clear R.
       constructor; cbn [api_fin snd stop_code].
@@ -581,11 +729,14 @@ Section CallAcq2.
       + intros _. apply (eff_tr _ _ _ E1).
       + intros c' m' b' _. apply (run_nomark nopw t _ _ _ _ (alg_nomark _ (raw_try_ops m (alg_of (e_am e) s))) R1).
       + apply clean_to_nobad, (eff_tr _ _ _ E1).
+      + unfold poison_facts. cbn [api_fin snd stop_code psn_after]. split; [intros _ x; apply (eff_psn _ _ _ E1)|].
+        split; [intros [X|[X|X]]; discriminate X|]. now left.
       + intros c' m' l' b' _ _. discriminate.
   Qed.
 End CallAcq2.
 
 Lemma call_out_same sc t lc o w out w' :
+  poison_facts sc lc o w out w' ->
   (forall x, w_raw w' x = w_raw w x) -> quiet w' ->
   stop_code (snd (api_fin (sc_env sc) lc o out)) = false ->
   (forall rc, raw_after sc t lc o rc (w_raw w) = w_raw w) ->
@@ -594,7 +745,7 @@ Lemma call_out_same sc t lc o w out w' :
   is_scoped o = None ->
   call_out sc t lc o w out w'.
 Proof.
-  intros Hr Hq Hs Ha Hg Hc Hsc. constructor.
+  intros Hpf Hr Hq Hs Ha Hg Hc Hsc. constructor.
   - rewrite Hs. discriminate.
   - intros _. exact Hq.
   - intros _ x. rewrite Ha. apply Hr.
@@ -602,6 +753,7 @@ Proof.
   - intros _. exact Hc.
   - intros c m b X. rewrite Hsc in X. discriminate X.
   - now apply clean_to_nobad.
+  - exact Hpf.
   - intros c m l b [X|X] _; subst o; discriminate Hsc.
 Qed.
 
@@ -612,11 +764,11 @@ Lemma call_Q sc t lc o p w out w' :
 Proof.
   intros Q Hf Hg Hco Hp R. destruct o; cbn [api_prog] in Hp.
   - (* AKeyGet *) injection Hp as Hp; subst p. cbn in R. inversion R; subst out w'.
-    apply call_out_same; auto; try (now apply quiet_set_keyf); (exists []; split; [reflexivity|constructor]).
+    apply call_out_same; [unfold poison_facts; cbn [psn_after]; split; [intros _ x; reflexivity|exact I]|..]; auto; try (now apply quiet_set_keyf); (exists []; split; [reflexivity|constructor]).
   - (* AKeyDrop *) destruct (haskey lc); [|discriminate]. injection Hp as Hp; subst p. cbn in R. inversion R; subst out w'.
-    apply call_out_same; auto; try (now apply quiet_set_keyf); (exists []; split; [reflexivity|constructor]).
+    apply call_out_same; [unfold poison_facts; cbn [psn_after]; split; [intros _ x; reflexivity|exact I]|..]; auto; try (now apply quiet_set_keyf); (exists []; split; [reflexivity|constructor]).
   - (* AKeyForget *) destruct (haskey lc); [|discriminate]. injection Hp as Hp; subst p. cbn in R. inversion R; subst out w'.
-    apply call_out_same; auto; (exists []; split; [reflexivity|constructor]).
+    apply call_out_same; [unfold poison_facts; cbn [psn_after]; split; [intros _ x; reflexivity|exact I]|..]; auto; (exists []; split; [reflexivity|constructor]).
   - (* AAcquire *)
     destruct (coll (sc_env sc) c) as [s|] eqn:Hc; [|discriminate]. destruct (haskey lc); [|discriminate].
     destruct (Hco c m f eq_refl s Hc) as [Ha ND].
@@ -637,6 +789,7 @@ Proof.
     + intros _. apply (eff_tr _ _ _ E1).
     + intros c m b X. discriminate X.
     + apply clean_to_nobad, (eff_tr _ _ _ E1).
+    + unfold poison_facts. cbn [psn_after set_keyf w_psn]. split; [intros _ x; apply (eff_psn _ _ _ E1)|exact I].
     + intros c m l b [X|X] _; discriminate X.
   - (* AGuardUnlock *)
     destruct (guard lc) as [[gm items]|] eqn:G; [|discriminate]. injection Hp as Hp; subst p. cbn [g_mode g_items] in R.
@@ -650,20 +803,21 @@ Proof.
     + intros _. apply (eff_tr _ _ _ E1).
     + intros c m b X. discriminate X.
     + apply clean_to_nobad, (eff_tr _ _ _ E1).
+    + unfold poison_facts. cbn [psn_after]. split; [intros _ x; apply (eff_psn _ _ _ E1)|exact I].
     + intros c m l b [X|X] _; discriminate X.
   - (* AGuardForget *)
     destruct (guard lc); [|discriminate]. injection Hp as Hp; subst p. cbn in R. inversion R; subst out w'.
-    apply call_out_same; auto; (exists []; split; [reflexivity|constructor]).
+    apply call_out_same; [unfold poison_facts; cbn [psn_after]; split; [intros _ x; reflexivity|exact I]|..]; auto; (exists []; split; [reflexivity|constructor]).
   - (* AGuardRead *)
     destruct (guard lc) as [g|]; [|discriminate]. injection Hp as Hp; subst p.
     destruct (run_cs_prog t (g_mode g) (g_items g) (CRead pos) w) as [v [w1 [R1 F1]]]. cbn [is_cpanic cs_prog] in R1.
     rewrite R1 in R. inversion R; subst out w'.
-    apply call_out_same; auto; [apply (fr_raw _ _ F1)|eapply frame_quiet; eauto|now apply frame_clean].
+    apply call_out_same; [unfold poison_facts; cbn [psn_after]; split; [intros _ x; apply (fr_psn _ _ F1)|exact I]|..]; auto; [apply (fr_raw _ _ F1)|eapply frame_quiet; eauto|now apply frame_clean].
   - (* AGuardWrite *)
     destruct (guard lc) as [g|]; [|discriminate]. injection Hp as Hp; subst p.
     destruct (run_cs_prog t (g_mode g) (g_items g) (CWrite pos) w) as [v [w1 [R1 F1]]]. cbn [is_cpanic cs_prog] in R1.
     rewrite R1 in R. inversion R; subst out w'.
-    apply call_out_same; auto; [apply (fr_raw _ _ F1)|eapply frame_quiet; eauto|now apply frame_clean].
+    apply call_out_same; [unfold poison_facts; cbn [psn_after]; split; [intros _ x; apply (fr_psn _ _ F1)|exact I]|..]; auto; [apply (fr_raw _ _ F1)|eapply frame_quiet; eauto|now apply frame_clean].
   - (* APanic *)
     destruct (guard lc) as [[gm items]|] eqn:G.
     + injection Hp as Hp; subst p. cbn [g_mode g_items] in R. destruct (Hg gm items G) as [ND H].
@@ -676,6 +830,8 @@ Proof.
       * intros _. apply (ep_tr _ _ _ _ E1).
       * intros c m b X. discriminate X.
       * apply clean_to_nobad, (ep_tr _ _ _ _ E1).
+      * unfold poison_facts. cbn [psn_after set_keyf w_psn]. rewrite G. cbn [g_items].
+        split; [intros _ x; apply (ep_psn _ _ _ _ E1)|exact I].
       * intros c m l b [X|X] _; discriminate X.
     + injection Hp as Hp; subst p.
       assert (Rr : run nopw t (Bind (with_key false (haskey lc) skip) (fun _ => Throw)) w =
@@ -689,17 +845,22 @@ Proof.
       * intros _. destruct (haskey lc); (exists []; split; [reflexivity|constructor]).
       * intros c m b X. discriminate X.
       * destruct (haskey lc); (exists []; split; [reflexivity|constructor]).
+      * unfold poison_facts. cbn [psn_after]. rewrite G. split; [intros _ x; destruct (haskey lc); reflexivity|exact I].
       * intros c m l b [X|X] _; discriminate X.
   - (* AIsPoisoned *)
-    destruct (coll (sc_env sc) c) as [[| | | | | |q s']|]; try discriminate. injection Hp as Hp; subst p.
-    cbn in R. inversion R; subst out w'. apply call_out_same; auto; (exists []; split; [reflexivity|constructor]).
+    destruct (coll (sc_env sc) c) as [[| | | | | |q s']|] eqn:Hc; try discriminate. injection Hp as Hp; subst p.
+    cbn in R. inversion R; subst out w'.
+    apply call_out_same; [unfold poison_facts; cbn [psn_after api_fin snd]; rewrite (shape_of_coll _ _ _ Hc); cbn [root_poison];
+                          split; [intros _ x; reflexivity|now rewrite vtrue_vbool]|..]; auto; (exists []; split; [reflexivity|constructor]).
   - (* AClearPoison *)
-    destruct (coll (sc_env sc) c) as [[| | | | | |q s']|]; try discriminate. injection Hp as Hp; subst p.
-    cbn in R. inversion R; subst out w'. apply call_out_same; auto; try (now apply quiet_set_psn); (exists []; split; [reflexivity|constructor]).
+    destruct (coll (sc_env sc) c) as [[| | | | | |q s']|] eqn:Hc; try discriminate. injection Hp as Hp; subst p.
+    cbn in R. inversion R; subst out w'.
+    apply call_out_same; [unfold poison_facts; cbn [psn_after]; rewrite (shape_of_coll _ _ _ Hc); cbn [root_poison];
+                          split; [intros _ x; reflexivity|reflexivity]|..]; auto; try (now apply quiet_set_psn); (exists []; split; [reflexivity|constructor]).
   - (* AFmt *)
     destruct (coll (sc_env sc) c) as [s|]; [|discriminate]. injection Hp as Hp; subst p.
     destruct (fmt_quiet t s w Q) as [n [w1 [R1 [E1 _]]]]. rewrite R1 in R. inversion R; subst out w'.
-    apply call_out_same; auto; [apply (eff_raw _ _ _ E1)|eapply eff_quiet; eauto|apply (eff_tr _ _ _ E1)].
+    apply call_out_same; [unfold poison_facts; cbn [psn_after]; split; [intros _ x; apply (eff_psn _ _ _ E1)|exact I]|..]; auto; [apply (eff_raw _ _ _ E1)|eapply eff_quiet; eauto|apply (eff_tr _ _ _ E1)].
 Qed.
 
 (* ---------------------------------------------------------------- other threads' holds are not disturbed *)
